@@ -400,8 +400,38 @@ func candidates(c *Case) []*Case {
 				at(cc).Nodes[k].Body = Body{Op: "tag"}
 				out = append(out, cc)
 			}
-			// drop the node: re-route its incoming edges to its outgoing edge targets is too invasive;
-			// only nodes without outgoing connections other than to END and a single incoming edge are dropped
+		}
+		// drop nodes that nothing refers to
+		for k := range lv.Nodes {
+			key := lv.Nodes[k].Key
+			used := false
+			for _, e := range lv.Edges {
+				if e[0] == key || e[1] == key {
+					used = true
+				}
+			}
+			for _, b := range lv.Branches {
+				if b.From == key || contains(b.Ends, key) {
+					used = true
+				}
+			}
+			if used {
+				continue
+			}
+			cc := cloneCase(c)
+			g := at(cc)
+			g.Nodes = append(append([]Node{}, g.Nodes[:k]...), g.Nodes[k+1:]...)
+			for i := len(g.IntBefore) - 1; i >= 0; i-- {
+				if g.IntBefore[i] == key {
+					g.IntBefore = removeStr(g.IntBefore, i)
+				}
+			}
+			for i := len(g.IntAfter) - 1; i >= 0; i-- {
+				if g.IntAfter[i] == key {
+					g.IntAfter = removeStr(g.IntAfter, i)
+				}
+			}
+			out = append(out, cc)
 		}
 		for k := range lv.Branches {
 			cc := cloneCase(c)
@@ -475,6 +505,8 @@ func shrink(ctx *vh.Ctx, prop string, c *Case, sig string, budget int) (*Case, *
 	}
 	return c, best
 }
+
+var shrunkSigs = map[string]bool{} // one shrink per signature and run
 
 // Evaluate runs one case on the implementation and on the model, reports what differs
 // (shrunk), and does the coverage accounting.
@@ -572,7 +604,8 @@ func Evaluate(ctx *vh.Ctx, prop string, c *Case, doShrink bool) error {
 		}
 		seen[fd.Sig] = true
 		rc, rf := c, &fd
-		if doShrink {
+		if doShrink && !shrunkSigs[fd.Sig] {
+			shrunkSigs[fd.Sig] = true
 			if sc, sf := shrink(ctx, prop, c, fd.Sig, 400); sf != nil {
 				rc, rf = sc, sf
 			}
